@@ -44,7 +44,8 @@ type job struct {
 	UTF8 bool `json:"u8,omitempty"`
 	Pad  bool `json:"pad,omitempty"`
 	// session
-	Tight bool `json:"tight,omitempty"`
+	Tight bool   `json:"tight,omitempty"`
+	Only  string `json:"only,omitempty"` // "" = resume v1..v3 and add; "resume/v1".."resume/v3" | "add" = just that path
 }
 
 type fileSum struct {
@@ -135,7 +136,7 @@ type sessRes struct {
 var (
 	reDigits = regexp.MustCompile(`[0-9]+`)
 	reQuoted = regexp.MustCompile(`"[^"]*"`)
-	ms0, ms1 runtime.MemStats
+	ms0 runtime.MemStats
 )
 
 func errClass(err error) string {
@@ -177,22 +178,33 @@ func topFrame(stack string) string {
 	return "unknown"
 }
 
-// guarded runs f, measuring heap bytes allocated, recovering a panic.
-func guarded(f func()) (alloc uint64, pv, frame string) {
+// guarded runs f and recovers a panic.
+func guarded(f func()) (pv, frame string) {
 	defer func() {
 		if r := recover(); r != nil {
 			buf := make([]byte, 16384)
 			n := runtime.Stack(buf, false)
 			pv = fmt.Sprint(r)
 			frame = topFrame(string(buf[:n]))
-			runtime.ReadMemStats(&ms1)
-			alloc = ms1.TotalAlloc - ms0.TotalAlloc
 		}
 	}()
-	runtime.ReadMemStats(&ms0)
 	f()
-	runtime.ReadMemStats(&ms1)
-	return ms1.TotalAlloc - ms0.TotalAlloc, "", ""
+	return "", ""
+}
+
+// totalAlloc is the exact number of heap bytes allocated by this process so far (stops the world and
+// flushes the allocation caches, ~0.2 ms: used once per group of calls, and around single calls only
+// when a group is over the smallest bound of its members).
+func totalAlloc() uint64 {
+	runtime.ReadMemStats(&ms0)
+	return ms0.TotalAlloc
+}
+
+// exactAlloc re-runs a (deterministic, side-effect free) parser call with nothing else in between.
+func exactAlloc(f func()) uint64 {
+	a := totalAlloc()
+	guarded(f)
+	return totalAlloc() - a
 }
 
 func allocBound(n int) uint64 { return 64*uint64(n) + 1<<20 }
@@ -293,7 +305,37 @@ const alphabet = "deil012:-x"
 func runBytes(j job) *bytesRes {
 	res := &bytesRes{Hist: map[string]int{}}
 	ws := wrappers()
-	wNew, wInfo := ws[0], ws[5]
+	two := []wrapper{ws[0], ws[5]} // metainfo.New, metainfo.NewInfo(utf8,pad)
+	keepCall := func(cr callRes, s []byte) {
+		if len(res.Calls) < 50 {
+			res.Calls = append(res.Calls, cr)
+			res.Inputs = append(res.Inputs, string(s))
+		}
+	}
+	// allocation is measured exactly per group of groupN strings; a group over the smallest bound
+	// (that of the empty input) is re-measured call by call
+	const groupN = 32
+	var group [][]byte
+	groupStart := totalAlloc()
+	endGroup := func() {
+		now := totalAlloc()
+		d := now - groupStart
+		if d > res.MaxAlloc {
+			res.MaxAlloc = d
+		}
+		if d > allocBound(0) {
+			for _, s := range group {
+				for _, w := range two {
+					in := append([]byte{}, s...)
+					if a := exactAlloc(func() { w.run(in) }); a > allocBound(len(s)) {
+						keepCall(callRes{W: w.name, InLen: len(s), Alloc: a}, s)
+					}
+				}
+			}
+		}
+		group = group[:0]
+		groupStart = totalAlloc()
+	}
 	one := func(s []byte) {
 		res.N++
 		v, rest, err := refcodec.Decode(s)
@@ -304,20 +346,16 @@ func runBytes(j job) *bytesRes {
 			}
 		}
 		nontrivial := false
-		for _, w := range []wrapper{wNew, wInfo} {
+		for _, w := range two {
 			var info *metainfo.Info
 			var e error
 			in := append([]byte{}, s...)
-			alloc, pv, frame := guarded(func() { info, e = w.run(in) })
-			if alloc > res.MaxAlloc {
-				res.MaxAlloc = alloc
-			}
-			cr := callRes{W: w.name, InLen: len(s), Alloc: alloc}
-			keep := false
+			pv, frame := guarded(func() { info, e = w.run(in) })
+			cr := callRes{W: w.name, InLen: len(s)}
 			switch {
 			case pv != "":
 				cr.Panic, cr.Frame = pv, frame
-				keep = true
+				keepCall(cr, s)
 				res.Hist[w.name+"|panic"]++
 			case e != nil:
 				res.Hist[w.name+"|"+errClass(e)]++
@@ -326,50 +364,40 @@ func runBytes(j job) *bytesRes {
 				}
 			default:
 				cr.Acc = summarize(info)
-				keep = true
+				keepCall(cr, s)
 				nontrivial = true
 				res.Hist[w.name+"|accepted"]++
-			}
-			if alloc > allocBound(len(s)) {
-				keep = true
-			}
-			if keep && len(res.Calls) < 50 {
-				res.Calls = append(res.Calls, cr)
-				res.Inputs = append(res.Inputs, string(s))
 			}
 		}
 		if nontrivial {
 			res.NonTrivial++
 		}
-	}
-	if j.Short {
-		// all strings shorter than the prefix length
-		var rec func(cur []byte)
-		rec = func(cur []byte) {
-			one(cur)
-			if len(cur) == len(j.Prefix)-1 || len(cur) == j.MaxLen {
-				return
-			}
-			for i := 0; i < len(alphabet); i++ {
-				rec(append(cur, alphabet[i]))
-			}
+		group = append(group, append([]byte{}, s...))
+		if len(group) == groupN {
+			endGroup()
 		}
-		rec(nil)
-		return res
 	}
-	var rec func(cur []byte)
-	rec = func(cur []byte) {
+	var rec func(cur []byte, stop int)
+	rec = func(cur []byte, stop int) {
 		one(cur)
-		if len(cur) == j.MaxLen {
+		if len(cur) >= stop {
 			return
 		}
 		for i := 0; i < len(alphabet); i++ {
-			rec(append(cur, alphabet[i]))
+			rec(append(cur, alphabet[i]), stop)
 		}
 	}
-	if len(j.Prefix) <= j.MaxLen {
-		rec([]byte(j.Prefix))
+	if j.Short {
+		// all strings shorter than the prefix length
+		stop := len(j.Prefix) - 1
+		if j.MaxLen < stop {
+			stop = j.MaxLen
+		}
+		rec(nil, stop)
+	} else if len(j.Prefix) <= j.MaxLen {
+		rec([]byte(j.Prefix), j.MaxLen)
 	}
+	endGroup()
 	return res
 }
 
@@ -377,12 +405,22 @@ func runBytes(j job) *bytesRes {
 
 func runParse(j job) *parseRes {
 	res := &parseRes{Hist: map[string]int{}}
+	ws := wrappers()
 	for k := range j.Cases {
 		c := &j.Cases[k]
 		ib := c.infoBytes()
 		var tb []byte
 		nontrivial := false
-		for _, w := range wrappers() {
+		type done struct {
+			w    wrapper
+			in   []byte
+			cr   callRes
+			keep bool
+		}
+		var calls []done
+		minLen := -1
+		start := totalAlloc()
+		for _, w := range ws {
 			if j.Wrapper != "" && j.Wrapper != w.name {
 				continue
 			}
@@ -395,19 +433,16 @@ func runParse(j job) *parseRes {
 			} else {
 				if tb == nil {
 					tb = c.torrentBytes()
+					start = totalAlloc() // building the input is not the parser's work
 				}
 				in = tb
 			}
 			var info *metainfo.Info
 			var e error
-			alloc, pv, frame := guarded(func() { info, e = w.run(in) })
+			pv, frame := guarded(func() { info, e = w.run(in) })
 			res.NCalls++
-			if alloc > res.MaxAlloc {
-				res.MaxAlloc = alloc
-				res.MaxAllocAt = c.Desc + " via " + w.name
-			}
-			cr := callRes{Case: j.IDs[k], W: w.name, InLen: len(in), Alloc: alloc}
-			keep := alloc > allocBound(len(in))
+			cr := callRes{Case: j.IDs[k], W: w.name, InLen: len(in)}
+			keep := false
 			outcome := ""
 			switch {
 			case pv != "":
@@ -427,16 +462,46 @@ func runParse(j job) *parseRes {
 				outcome = "accepted"
 			}
 			res.Hist[c.Class+"|"+w.name+"|"+outcome]++
-			if keep {
-				res.Calls = append(res.Calls, cr)
+			calls = append(calls, done{w, in, cr, keep})
+			if minLen < 0 || len(in) < minLen {
+				minLen = len(in)
 			}
-			info = nil
-			if len(in) > 1<<20 || alloc > 1<<24 {
-				runtime.GC() // keep the address space of this process flat between hostile inputs
+		}
+		if len(calls) == 0 {
+			continue
+		}
+		// exact allocation of the whole group (all entry points on this case, plus a little harness
+		// bookkeeping); only a group over the smallest member bound is re-measured call by call
+		groupAlloc := totalAlloc() - start
+		if groupAlloc > res.MaxAlloc {
+			res.MaxAlloc = groupAlloc
+			res.MaxAllocAt = c.Desc
+		}
+		if groupAlloc > allocBound(minLen) {
+			for i := range calls {
+				d := &calls[i]
+				if len(calls) == 1 {
+					d.cr.Alloc = groupAlloc // nothing but the call was in the window
+				} else {
+					runtime.GC()
+					d.cr.Alloc = exactAlloc(func() { d.w.run(d.in) })
+				}
+				if d.cr.Alloc > allocBound(len(d.in)) {
+					d.keep = true
+				}
+			}
+		}
+		for i := range calls {
+			if calls[i].keep {
+				res.Calls = append(res.Calls, calls[i].cr)
 			}
 		}
 		if nontrivial {
 			res.NonTrivial++
+		}
+		if len(ib) > 1<<20 || len(tb) > 1<<20 || groupAlloc > 1<<24 {
+			calls = nil
+			runtime.GC() // keep the address space of this process flat between hostile inputs
 		}
 	}
 	return res
@@ -515,7 +580,7 @@ func (c *countingReader) Read(p []byte) (int, error) {
 
 const (
 	tightMaxPieces  = 1
-	tightMaxTorrent = 200
+	tightMaxTorrent = 220
 )
 
 func runSession(j job) *sessRes {
@@ -568,6 +633,9 @@ func runSession(j job) *sessRes {
 			continue // an empty info value means "magnet without metadata" to the resumer, not an info dict
 		}
 		for v := 1; v <= 3; v++ {
+			if j.Only != "" && j.Only != fmt.Sprintf("resume/v%d", v) {
+				continue
+			}
 			id := fmt.Sprintf("r%dv%d", k, v)
 			ids = append(ids, rid{id, k, v})
 			spec := &boltdbresumer.Spec{InfoHash: make([]byte, 20), Port: port, Name: "r", Info: ib, AddedAt: time.Unix(1700000000, 0), Version: v}
@@ -581,7 +649,7 @@ func runSession(j job) *sessRes {
 		core.HarnessError("worker: bbolt close: %v", err)
 	}
 	var s *torrent.Session
-	_, pv, frame := guarded(func() { s, err = torrent.NewSession(cfg) })
+	pv, frame := guarded(func() { s, err = torrent.NewSession(cfg) })
 	if pv != "" {
 		res.Panics = append(res.Panics, callRes{Case: j.IDs[0], W: "NewSession(resume)", Panic: pv, Frame: frame})
 		return res
@@ -607,12 +675,15 @@ func runSession(j job) *sessRes {
 	}
 	// 2. AddTorrent
 	for k := range j.Cases {
+		if j.Only != "" && j.Only != "add" {
+			continue
+		}
 		tb := j.Cases[k].torrentBytes()
 		cr := &countingReader{r: bytes.NewReader(tb)}
 		var t *torrent.Torrent
 		var aerr error
 		id := fmt.Sprintf("a%d", k)
-		_, pv, frame := guarded(func() { t, aerr = s.AddTorrent(cr, &torrent.AddTorrentOptions{ID: id, Stopped: true}) })
+		pv, frame := guarded(func() { t, aerr = s.AddTorrent(cr, &torrent.AddTorrentOptions{ID: id, Stopped: true}) })
 		res.NCalls++
 		switch {
 		case pv != "":
